@@ -12,8 +12,8 @@ from concurrent.futures import ThreadPoolExecutor
 HERE = os.path.dirname(os.path.dirname(os.path.abspath(__file__)))
 SCR = "/tmp/sw_matrix"
 # checks besides the property's own one that look at the same code
-EXTRA = {"C03": ["C02", "C05", "C13"], "C08": ["C02", "C13"], "C06": ["C13"], "C09": ["C10"], "C19": ["C06", "C13"], "C14": ["C15"], "C02": ["C05", "C13"],
-         "C01": ["C13"], "C12": ["C13"], "C15": ["C14"]}
+EXTRA = {"C03": ["C02", "C05"], "C08": ["C02", "C09"], "C09": ["C10", "C14"], "C19": ["C06"], "C14": ["C15"], "C02": ["C05", "C03"],
+         "C15": ["C14"], "C06": [], "C04": [], "C13": ["C02", "C06", "C10"]}
 CLAIMED = [c["property_id"] for c in json.load(open(os.path.join(HERE, "MANIFEST.json")))["checks"]]
 
 
@@ -35,7 +35,7 @@ def one(sid):
             return res
         checks = [c for c in [prop] + EXTRA.get(prop, []) if c in CLAIMED]
         for c in checks:
-            env = dict(os.environ, PVC_REPO=wt, PVC_OUT=out, PVC_JOBS="8")
+            env = dict(os.environ, PVC_REPO=wt, PVC_OUT=out, PVC_JOBS="6")
             p = subprocess.run(["./check", c, "--tier", "quick"], cwd=HERE, capture_output=True, text=True, env=env)
             lines = [l for l in p.stdout.splitlines() if l.startswith(("VIOLATION", "UNDECIDED", "CHECKER-ERROR", "KNOWN-FINDING"))]
             viol = [l for l in lines if l.startswith("VIOLATION")]
@@ -55,7 +55,7 @@ def main():
     os.makedirs(SCR, exist_ok=True)
     mpath = os.path.join(HERE, "seeded", "MATRIX.json")
     matrix = json.load(open(mpath)) if os.path.exists(mpath) else {}
-    with ThreadPoolExecutor(max_workers=3) as ex:
+    with ThreadPoolExecutor(max_workers=4) as ex:
         for r in ex.map(one, ids):
             matrix[r["id"]] = r
             print(r["id"], "caught by", r.get("caught_by"), {c: (v["exit"], v["violations"], v["replayed"]) for c, v in r["checks"].items()}, r.get("error", ""), flush=True)
